@@ -280,6 +280,16 @@ def build_C05(ctx, tier, rnd):
         ctx.add_zdec_real(nm)
         for before in ((), ('uh2',), ('uh2', 'udl2'), ('uj2',)):
             hs.append(('c05c%d_%d' % (cut, len(hs)), [al.init] + al.seq(PFX['good1']) + al.seq(before) + [op_update(ctx, 2, dl='@' + nm), 'op nextnum'] + al.seq(['u2', 'q'])))
+    # the download and its inflated output are written on top of whatever earlier attempts for the same
+    # number left in downloads/ (nothing ever deletes those files; they survive rollbacks, restarts and
+    # release changes): a body cut short at the compressed level after an intact download of the same number
+    zcuts = sorted(set([0, 1, 10, len(dl) // 2, len(dl) - 1] + ([rnd.randrange(len(dl)) for _ in range(3)] if tier == 'quick' else list(range(0, len(dl), 7)))))
+    for cut in zcuts:
+        nm = 'zcut%d' % cut
+        ctx.add_blob(nm, dl[:cut])
+        ctx.add_zdec_real(nm)
+        for lbl, before in (('rb', ('u2', 'rb2')), ('rbboot', ('u2', 's', 'ok', 'rb2')), ('rv', ('u2', 'RV')), ('dmg', ('u2', 'dD2', 'q')), ('fresh', ())):
+            hs.append(('c05z%d_%s' % (cut, lbl), [al.init] + al.seq(PFX['good1']) + al.seq(before) + [op_update(ctx, 2, dl='@' + nm), 'op nextnum'] + al.seq(['u2', 'q'])))
     # hash strings
     h = ctx.p['2']['hash']
     hashes = [h.upper(), h[:-1], h + '0', h + '00', '', 'zz' + h[2:], h[:32], '0' * 64, ' ' + h, h.replace('a', 'A', 1),
@@ -459,10 +469,10 @@ def run_C06(pid, tier, seed, model_ok=True):
                 mt = list(mt)
                 for idx in refused:      # a refused connection never reaches a server: nothing is observed on the wire
                     if idx < len(mt):
-                        mt[idx] = re.sub(r'net=.*$', 'net=', mt[idx])
+                        mt[idx] = re.sub(r'net=\S*', 'net=', mt[idx])
                 for i in range(max(len(mt), len(tr))):
                     x = mt[i] if i < len(mt) else '<missing>'
-                    y = tr[i] if i < len(tr) else '<missing>'
+                    y = norm_dls(x, tr[i]) if i < len(tr) else '<missing>'
                     if x != y:
                         a['divergences'].append((name, i, x, y, iops, header + ['http on']))
                         break
@@ -751,6 +761,7 @@ def run_C16(pid, tier, seed, model_ok=True):
     distinct = set()
     lsm_tables = []
     nbs = [0]
+    nleft = [0]
 
     def one(item):
         name, base, new = item
@@ -797,7 +808,18 @@ def run_C16(pid, tier, seed, model_ok=True):
                         chunk_real[(vn, k)] = v
                     for sp in specs:
                         lines.append('chunked %s @base @%s' % (sp, vn))
-        lines += ['history ' + name, op_init(), 'op update - %s @dl' % resp(True, (1, h, 'http://dl/1', None), None), 'op nextpath', 'op nextnum']
+        # every second small pair: an earlier attempt for the same patch number (a patch to a LONGER target, rejected by
+        # the hash gate) has left downloads/1 and downloads/1.full behind; the tool's patch must still install
+        pre_ops = []
+        if small and len(new) <= 60000 and (len(base) + len(new)) % 2 == 0 and len(base) > 0:
+            longer = new + bytes(random.Random(len(new)).randrange(256) for _ in range(3000 + len(new) % 777))
+            open(os.path.join(d, 'n2'), 'wb').write(longer)
+            subprocess.run([UVH, 'mkpatch', os.path.join(d, 'b'), os.path.join(d, 'n2'), os.path.join(d, 'p2')], check=True, capture_output=True)
+            dl2 = open(os.path.join(d, 'p2.patch'), 'rb').read()
+            raw2 = open(os.path.join(d, 'p2.raw'), 'rb').read()
+            lines = ['blob dlx %s' % dl2.hex(), 'blob rawx %s' % raw2.hex(), 'zdec @dlx @rawx'] + lines
+            pre_ops = ['op update - %s @dlx' % resp(True, (1, h, 'http://dl/1', None), None)]
+        lines += ['history ' + name, op_init()] + pre_ops + ['op update - %s @dl' % resp(True, (1, h, 'http://dl/1', None), None), 'op nextpath', 'op nextnum']
         f = os.path.join(d, 'x.ops')
         open(f, 'w').write('\n'.join(lines) + '\n')
         mo = subprocess.run(['bash', '-c', 'ulimit -s unlimited; exec "$0" "$1"', DRIVER, f], capture_output=True, text=True) if (small and model_ok) else None
@@ -814,6 +836,13 @@ def run_C16(pid, tier, seed, model_ok=True):
         ops = [l for l in lines if l.startswith('op ')]
         distinct.add((len(base), len(new), len(ms)))
         itr = [l for l in im.stdout.splitlines() if l.startswith('out=')]
+        nlo = 0
+        if len(itr) == 5:      # the leftover-producing attempt must have been rejected; then judge the rest as usual
+            if not itr[1].startswith('out=-1 '):
+                extras.append('C16 leftover attempt for %s was not rejected: %s' % (name, itr[1][:80]))
+            itr = [itr[0]] + itr[2:]
+            nlo = 1
+            nleft[0] += 1
         if im.returncode != 0 or len(itr) != 4:
             extras.append('implementation run failed for %s: rc=%d %s' % (name, im.returncode, im.stderr[-300:]))
             continue
@@ -829,6 +858,8 @@ def run_C16(pid, tier, seed, model_ok=True):
             out = mo.stdout.splitlines()
             kv = dict(l.split('=', 1) for l in out if '=' in l and not l.startswith('out='))
             mtr = [l for l in out if l.startswith('out=')]
+            if nlo and len(mtr) == 5:
+                mtr = [mtr[0]] + mtr[2:]
             if kv.get('wfm') != 'true':
                 divs.append((name, 0, 'wf_matches = %s on the matches bidiff emitted' % kv.get('wfm'), 'matches: %s' % ms[:5], ops, header))
             if 'bsdiff' in kv:
@@ -840,7 +871,7 @@ def run_C16(pid, tier, seed, model_ok=True):
             if kv.get('apply') != 'ok:%d.%s' % (len(new), hashlib.sha256(new).hexdigest()):
                 divs.append((name, 0, 'model apply_patch gives %s' % kv.get('apply'), 'new binary %d.%s' % (len(new), hashlib.sha256(new).hexdigest()), ops, header))
             for i, (a, b) in enumerate(zip(mtr, itr)):
-                if a != b:
+                if a != norm_dls(a, b):
                     divs.append((name, i, a, b, ops, header))
                     break
             for (vn, sp), rv in chunk_real.items():
@@ -864,7 +895,7 @@ def run_C16(pid, tier, seed, model_ok=True):
     shutil.rmtree(work, ignore_errors=True)
     return dict(evaluations=evals, distinct=len(distinct), samples=samples, divergences=divs, monitor_fail=fails,
                 rule='model scan loop with the real matcher as oracle == real BsdiffIterator matches (%d pairs, %d matcher answers all inside the buffers); ' % (nbs[0], nlsm) + '(base,new) pairs: identical / edited / unrelated / empty target / shared prefix or suffix / repeated blocks / grow / shrink at sizes crossing 4096, 8192 (and 65536, MiB in thorough); tool make_patch -> library update installs -> artifact == new; model: wf_matches on real matches, model writer == real bidiff bytes, model reader == new; model Reader state machine == real bipatch Reader under 6-7 buffer-size schedules on the genuine, a truncated and a bit-flipped stream; non-trivial = distinct (|base|,|new|,#matches)',
-                dist={'pairs': evals, 'reader_buffer_schedules': nchunk}, extras=extras, traces=evals)
+                dist={'pairs': evals, 'reader_buffer_schedules': nchunk, 'pairs_installed_over_leftovers_of_a_longer_rejected_attempt': nleft[0]}, extras=extras, traces=evals)
 
 
 
@@ -1181,6 +1212,18 @@ def run_C13(pid, tier, seed, model_ok=True):
         for i, y in enumerate(yamls):
             init = 'op init %s raw:%s t' % (hx(REL1), y.encode().hex() or 'e')
             hs_impl.append(('yaml%d' % i, [init] + rnd.sample(api, 4) + [al.init] + rnd.sample(api, 3)))
+        # (a') downloads that are valid zstd streams of LARGE payloads which the patch reader gives up on early or late:
+        # the decompression thread is then still pushing data into the pipe when the caller leaves inflate()
+        raw2 = ctx.blobs['raw2']
+        bigs = {'bz_zero': bytes(1 << 20), 'bz_hdrjunk': raw2[:8] + bytes(rnd.randrange(256) for _ in range(300000)),
+                'bz_goodtail': raw2 + bytes(1 << 19), 'bz_cutrec': raw2[:max(9, len(raw2) // 2)] + b'\xff' * 400000,
+                'bz_magic': b'\x00' + raw2[1:] + bytes(700000)}
+        for nm, payload in bigs.items():
+            open(os.path.join(ctx.tmp, 'bz.in'), 'wb').write(payload)
+            subprocess.run([UVH, 'zenc', os.path.join(ctx.tmp, 'bz.in'), os.path.join(ctx.tmp, 'bz.out')], check=True, capture_output=True)
+            ctx.add_blob(nm, open(os.path.join(ctx.tmp, 'bz.out'), 'rb').read())
+            for t in range(3):
+                hs_impl.append(('%s_%d' % (nm, t), [al.init] + al.seq(PFX['good1'] if t else ()) + [op_update(ctx, 2, dl='@' + nm)] + rnd.sample(api, 4) + [op_update(ctx, 2, dl='@' + nm), al.ops['u2'][0], 'op nextnum']))
         # (b) extreme values through the normal op language: model AND implementation
         hs_both = []
         big = 2 ** 64 - 1
